@@ -111,3 +111,103 @@ def simulated_cache_clock(clock: SimClock):
         yield clock
     finally:
         cc.time = orig
+
+
+class PreemptiveSimExecutor(SimExecutor):
+    """SimExecutor whose jobs are real threads stepped one *source line* at a time:
+    every job runs under a trace function that hands the baton back to the scheduler at each
+    line event inside flox code; the tape picks which job advances next.  Exactly one thread
+    runs at any moment, so the interleaving is decided by the tape and replays exactly."""
+
+    max_steps = 20000
+
+    def _drain_until(self, fut):
+        if fut.done:
+            return
+        self._run_all_interleaved()
+
+    def __exit__(self, *exc):
+        if self.pending:
+            self._run_all_interleaved()
+        return False
+
+    def shutdown(self, wait=True):
+        if self.pending:
+            self._run_all_interleaved()
+
+    def _run_all_interleaved(self):
+        import sys
+        import threading
+
+        jobs = self.pending
+        self.pending = []
+        tape = type(self).tape
+        stats = type(self).stats
+        go = [threading.Semaphore(0) for _ in jobs]
+        back = threading.Semaphore(0)
+        state = ["new"] * len(jobs)  # new | parked | done
+
+        def make_tracer(i):
+            def local(frame, event, arg):
+                if event == "line":
+                    state[i] = "parked"
+                    back.release()
+                    go[i].acquire()
+                return local
+
+            def tracer(frame, event, arg):
+                if "/flox/" in frame.f_code.co_filename:
+                    return local
+                return None
+
+            return tracer
+
+        def body(i, f):
+            go[i].acquire()
+            sys.settrace(make_tracer(i))
+            try:
+                f._run()
+            finally:
+                sys.settrace(None)
+                state[i] = "done"
+                back.release()
+
+        threads = [threading.Thread(target=body, args=(i, f), daemon=True, name=f"ThreadPoolExecutor-sim_{i}") for i, f in enumerate(jobs)]
+        for t in threads:
+            t.start()
+        steps = 0
+        switches = 0
+        last = None
+        while True:
+            alive = [i for i in range(len(jobs)) if state[i] != "done"]
+            if not alive:
+                break
+            steps += 1
+            if steps > self.max_steps:
+                # stop pre-empting: let every job run to completion one after the other
+                for i in alive:
+                    pass
+            i = alive[tape.draw("exec.step", len(alive)) if (tape is not None and steps <= self.max_steps) else 0]
+            if last is not None and i != last:
+                switches += 1
+            last = i
+            go[i].release()
+            back.acquire()
+        for t in threads:
+            t.join(timeout=10)
+        stats["jobs"] = stats.get("jobs", 0)
+        stats["steps"] = stats.get("steps", 0) + steps
+        stats["switches"] = stats.get("switches", 0) + switches
+
+
+@contextlib.contextmanager
+def simulated_planner_pool_preemptive(tape):
+    import flox.core as fc
+
+    cls = type("PreemptiveSimExecutorBound", (PreemptiveSimExecutor,), {"tape": tape, "stats": {"jobs": 0, "reordered": 0, "steps": 0, "switches": 0}})
+    orig = fc.ThreadPoolExecutor
+    fc.ThreadPoolExecutor = cls
+    try:
+        yield cls.stats
+    finally:
+        fc.ThreadPoolExecutor = orig
